@@ -8,6 +8,9 @@ import (
 func genC09(seed uint64, tier string, idx int) *Plan {
 	p, g := newPlan("C09", seed, tier)
 	p.Expect.Extra["retain"] = 1
+	if g.r.chance(30) {
+		p.Svc.Filter = false // every sub-package reaches the callbacks (WithHasSubcontract(false))
+	}
 	used := map[string]bool{}
 	nconn := 1 + g.r.intn(2)
 	for c := 0; c < nconn; c++ {
@@ -20,6 +23,9 @@ func genC09(seed uint64, tier string, idx int) *Plan {
 			if g.r.chance(12) {
 				id := []uint16{0x0200, 0x0704, 0x0800, 0x1005}[g.r.intn(4)]
 				fr, tr := g.transferFrames(ci, id, 2+g.r.intn(4), 0, g.r.chance(50))
+				if g.r.chance(25) && len(frames)+len(fr) >= n {
+					fr = fr[:len(fr)-1] // the last packet never arrives: the transfer is still open when the connection ends
+				}
 				// only one open transfer per ID at a time: transfers are emitted whole
 				p.Expect.Xfers = append(p.Expect.Xfers, tr)
 				for k := range fr {
